@@ -451,7 +451,7 @@ class ProvRecord(object):
                     )
 
                 if (
-                    not is_collection
+                    not (is_collection and attr == PROV_ATTR_ENTITY)
                     and attr in PROV_ATTRIBUTES
                     and self._attributes[attr]
                 ):
